@@ -76,6 +76,7 @@ class Profile:
     p_join: float = 0.5                  # per row while split
     p_early_term: float = 0.02
     p_combo_ops: float = 0.15
+    p_consecutive_ops: float = 0.35
     max_width: int = 7
     rejoin_before_barline: bool = False
     split_kern_only: bool = False
@@ -477,7 +478,14 @@ class _Gen:
                     doc.tags.add('midscore_signature_change')
                     if kind == 'clef':
                         doc.tags.add('clef_change')
-                self.maybe_ops()
+                if self.maybe_ops():
+                    # operator rows may directly follow each other (optionally with a global comment in between)
+                    for _ in range(2):
+                        if rng.random() < p.p_consecutive_ops:
+                            if rng.random() < 0.25:
+                                self.gcomment_line('inside')
+                            if self.maybe_ops():
+                                doc.tags.add('consecutive_operator_rows')
                 self.data_line()
                 total_rows += 1
         # closing
